@@ -144,6 +144,8 @@ class LeanStatus:
         self.forbidden_hits: List[str] = []
         self.driver_ok = True
         self.driver_msg = ""
+        self.driver_crashed = False  # the driver process died / timed out while answering (infrastructure, not a verdict)
+        self.infra = ""  # non-empty: the toolchain itself failed (no source location in the build output)
         self.leanchecker: Optional[str] = None
 
     @property
@@ -225,6 +227,10 @@ def lake_build(targets: Sequence[str], st: LeanStatus) -> None:
             tag = f"{nm} ({f}:{ln})"
             if tag not in seen:
                 seen.append(tag)
+        if not seen:
+            # the build failed without pointing at a line of our sources: the toolchain is broken (lake/lean missing or
+            # crashing, out of memory, unwritable build directory ...) - an infrastructure error, not a broken proof
+            st.infra = "lake build " + " ".join(targets) + " failed without a source error: " + out[-600:]
         st.broken = seen or ["lake build " + " ".join(targets)]
 
 
@@ -291,6 +297,8 @@ def prepare_lean(prop: str, theorems: Sequence[str], tier: str, extra_targets: S
         if rc != 0:
             st.driver_ok = False
             st.driver_msg = out[-2000:]
+            if not _ERR_RE.search(out):
+                st.infra = "lake build pevaldriver failed without a source error: " + out[-600:]
         lake_build([module, *extra_targets], st)
         if st.build_ok:
             audit_axioms(prop, module, theorems, st)
@@ -319,8 +327,16 @@ def run_model(prop: str, requests: List[dict], st: Optional[LeanStatus] = None) 
         cmd = [str(exe)]
     else:
         cmd = ["lake", "env", "lean", "--run", "Driver.lean"]
-    p = subprocess.run(cmd, cwd=str(LEAN_DIR), input=data, stdout=subprocess.PIPE, stderr=subprocess.PIPE, text=True)
     out: List[Optional[dict]] = [None] * len(requests)
+    try:
+        p = subprocess.run(cmd, cwd=str(LEAN_DIR), input=data, stdout=subprocess.PIPE, stderr=subprocess.PIPE, text=True,
+                           timeout=int(os.environ.get("VERIF_DRIVER_TIMEOUT", "3600")))
+    except subprocess.TimeoutExpired:
+        if st is not None:
+            st.driver_ok = False
+            st.driver_crashed = True
+            st.driver_msg = "model driver timed out"
+        return out
     for line in p.stdout.splitlines():
         line = line.strip()
         if not line.startswith("{"):
@@ -334,6 +350,7 @@ def run_model(prop: str, requests: List[dict], st: Optional[LeanStatus] = None) 
             out[i] = j
     if p.returncode != 0 and st is not None:
         st.driver_ok = False
+        st.driver_crashed = True
         st.driver_msg = (p.stderr or p.stdout)[-1000:]
     return out
 
@@ -359,7 +376,74 @@ def write_replay(prop: str, payload: dict, seed: int) -> str:
 
 def write_evidence(prop: str, ev: dict) -> None:
     EVIDENCE_DIR.mkdir(exist_ok=True)
-    (EVIDENCE_DIR / f"{prop}.json").write_text(json.dumps(ev, indent=1, default=str))
+    (EVIDENCE_DIR / f"{prop}.json").write_text(json.dumps(jsonable(ev), indent=1, default=str))
+
+
+def write_evidence_stub(prop: str, tier: str, seed: int, why: str, violations: int = 0) -> None:
+    """an infrastructure error leaves no stale evidence behind: the file says that nothing was established"""
+    try:
+        EVIDENCE_DIR.mkdir(exist_ok=True)
+        (EVIDENCE_DIR / f"{prop}.json").write_text(json.dumps({
+            "property_id": prop, "tier": tier, "seed": seed, "level": "proof",
+            "coverage": {"obligations": 0, "discharged": 0, "checker_cmd": "", "trusted_base": [],
+                         "infrastructure_error": str(why)[:1000]},
+            "assumptions": [], "wall_s": 0, "violations": violations}, indent=1))
+    except Exception:
+        pass
+
+
+class CaseTimeout(Exception):
+    pass
+
+
+class time_limit:
+    """`with time_limit(s):` raises CaseTimeout in the main thread after s seconds (SIGALRM; a no-op where unavailable)"""
+
+    def __init__(self, seconds: int) -> None:
+        self.seconds = int(seconds)
+        self.old = None
+
+    def __enter__(self):
+        import signal
+
+        if self.seconds > 0 and hasattr(signal, "SIGALRM"):
+            try:
+                def _h(signum, frame):
+                    raise CaseTimeout()
+
+                self.old = signal.signal(signal.SIGALRM, _h)
+                signal.alarm(self.seconds)
+            except ValueError:  # not in the main thread
+                self.old = None
+        return self
+
+    def __exit__(self, *a):
+        import signal
+
+        if self.old is not None:
+            signal.alarm(0)
+            signal.signal(signal.SIGALRM, self.old)
+        return False
+
+
+_SCRATCH = None
+
+
+def use_scratch_tmpdir() -> str:
+    """one scratch directory per check process; every tempfile.mkdtemp()/NamedTemporaryFile of the harness and of the
+    library lands inside it and it is removed at exit (the harness used to leak one directory per manager)"""
+    global _SCRATCH
+    if _SCRATCH is None:
+        import atexit
+        import shutil
+        import tempfile
+
+        base = os.environ.get("VERIF_TMP") or tempfile.gettempdir()
+        _SCRATCH = tempfile.mkdtemp(prefix="peval_check_", dir=base)
+        tempfile.tempdir = _SCRATCH
+        os.environ["TMPDIR"] = _SCRATCH
+        atexit.register(shutil.rmtree, _SCRATCH, True)
+    return _SCRATCH
 
 
 def jsonable(x: Any) -> Any:
